@@ -318,8 +318,34 @@ func genAolHistory(r *RNG, nBlocks int) []string {
 			g.lines = append(g.lines, mlines...)
 			g.add("ENDTX")
 		}
+		doExport := r.Chance(12)
+		if doExport && r.Chance(60) && len(g.writers) > 0 {
+			// shape the state that is about to be exported: one topic loses ALL its writers (its records must survive
+			// the export), so that exports are not only taken from "tidy" states
+			k := pick(r, sortedKeys(g.writers))
+			p := strings.SplitN(k, "/", 3)
+			if len(p) == 3 {
+				oi := -1
+				for i := range g.accts {
+					if g.addrStr(i) == p[0] {
+						oi = i
+					}
+				}
+				if oi >= 0 {
+					for _, wk := range sortedKeys(g.writers) {
+						q := strings.SplitN(wk, "/", 3)
+						if len(q) == 3 && q[0] == p[0] && q[1] == p[1] {
+							g.add("TX %s %x", toks(feeDenom)+":1000", []byte(g.accts[oi].Addr))
+							g.add("M aol.DeleteWriter %s %s %s", toks(q[1]), toks(q[2]), toks(q[0]))
+							g.add("ENDTX")
+							delete(g.writers, wk)
+						}
+					}
+				}
+			}
+		}
 		g.add("ENDBLOCK")
-		if r.Chance(12) {
+		if doExport {
 			g.add("EXPORTIMPORT")
 		}
 		g.add("DUMP aol")
